@@ -357,6 +357,11 @@ def session_c15(rng, fens, lines=None):
         n = rng.randint(4, 18) if lines is None else len(lines)
         end_by_close = rng.random() < 0.5
         close_at = rng.randint(0, n) if (end_by_close and lines is None) else None
+        # sometimes the lines arrive while a search is running: the engine must stay responsive throughout
+        searching = lines is None and rng.random() < 0.25
+        if searching:
+            e.send('go infinite')
+            close_at = None
         for i in range(n):
             if close_at is not None and i == close_at:
                 break
@@ -364,6 +369,8 @@ def session_c15(rng, fens, lines=None):
             toks = line.split()
             if toks and toks[0] == 'quit':
                 continue
+            if searching and toks and toks[0] in ('go', 'stop'):
+                continue          # keep the one search running (a further go would be outside the GUI discipline)
             if toks and toks[0] == 'go':
                 # the GUI cannot tell whether the engine takes this go; keep the discipline with a stop
                 e.send(line, cls='go_maybe')
@@ -377,6 +384,11 @@ def session_c15(rng, fens, lines=None):
             if e.wait_for('readyok', 2500) is None:
                 e.log({'ev': 'deadline', 'what': 'readyok', 't': e.now()})
                 e.drain(50)
+                return e.events
+        if searching:
+            e.send('stop')
+            if e.wait_for('bestmove', 2500) is None:
+                e.log({'ev': 'deadline', 'what': 'bestmove', 't': e.now()})
                 return e.events
         if end_by_close:
             if rng.random() < 0.3:
